@@ -548,6 +548,13 @@ class DataflowTransactionContext(ABC):  # pylint: disable=too-few-public-methods
                     # happens when bz/bnz is the last instruction in the contract and there is no default branch
                     default_branch = None
                     jump_branch = block.next[0]
+                    if len(block.exit_instr.next) == 2:
+                        # or when bz/bnz jumps to the very next instruction: the same block is executed
+                        # whatever the result of the comparison is.
+                        self._path_contexts[key][jump_branch][block] = self._union(
+                            key, true_values, false_values
+                        )
+                        continue
                 else:
                     default_branch = block.next[0]
                     jump_branch = block.next[1]
